@@ -81,6 +81,9 @@ pub struct GenCfg {
     /// client counts relative to t: candidates are computed from these offsets
     pub count_offsets: Vec<i64>,
     pub corrupt_kinds: Vec<&'static str>,
+    /// per-mille chance that a client's entropy for its report begins with a burst of zero or
+    /// all-one bytes (rare but legal output of a healthy source; 0 = never)
+    pub entropy_burst: u64,
 }
 
 impl GenCfg {
@@ -104,6 +107,7 @@ impl GenCfg {
             utf8_epochs: false,
             count_offsets: vec![-1, 0, 0, 1, 1, 2, 3],
             corrupt_kinds: vec![],
+            entropy_burst: 0,
         }
     }
 }
@@ -428,11 +432,20 @@ impl WorldA {
         let g = self.groups[self.clients[c].group].clone();
         let node = self.clients[c].node;
         let aux = self.clients[c].aux.clone();
+        // entropy fault: this client's source starts with a burst of identical bytes
+        let burst: Vec<u8> = if ctx.ch.chance(self.gen.entropy_burst, 1000) {
+            ctx.stats.fault("entropy_burst");
+            let (byte, len) = *ctx.ch.pick(&[(0u8, 24usize), (0, 48), (0, 72), (0xff, 16), (0xff, 24), (0xff, 48), (0, 16)]);
+            vec![byte; len]
+        } else {
+            Vec::new()
+        };
         let bytes = if let Some(th) = self.client_threads.as_mut() {
             let mut entropy = vec![0u8; 256];
             ctx.os.with_node(node as u64, || {
                 let _ = getrandom::getrandom(&mut entropy);
             });
+            entropy[..burst.len()].copy_from_slice(&burst);
             let (gm, ge, gt, gaux) = (g.measurement.clone(), g.epoch.clone(), g.threshold, aux.clone());
             th.run(node, entropy, move || {
                 let mg = MessageGenerator::new(SingleMeasurement::new(&gm), gt, &ge);
@@ -441,12 +454,12 @@ impl WorldA {
             })
         } else if self.reuse_generators {
             let mg = self.generators.entry(g.id).or_insert_with(|| MessageGenerator::new(SingleMeasurement::new(&g.measurement), g.threshold, &g.epoch));
-            ctx.os.with_node(node as u64, || {
+            ctx.os.with_node_prefix(node as u64, burst, || {
                 let m = Message::generate(mg, &rnd, aux.as_ref().map(|a| AssociatedData::new(a))).map_err(|e| e.to_string())?;
                 Ok::<(Vec<u8>, Message), String>((m.to_bytes(), m))
             })
         } else {
-            ctx.os.with_node(node as u64, || {
+            ctx.os.with_node_prefix(node as u64, burst, || {
                 let mg = MessageGenerator::new(SingleMeasurement::new(&g.measurement), g.threshold, &g.epoch);
                 let m = Message::generate(&mg, &rnd, aux.as_ref().map(|a| AssociatedData::new(a))).map_err(|e| e.to_string())?;
                 Ok::<(Vec<u8>, Message), String>((m.to_bytes(), m))
